@@ -1001,6 +1001,25 @@ func Run(r *report.Run) int {
 	r.Count("creations_rejected", rejected)
 	r.Count("cold_observations", int64(len(coldSeen)))
 	r.Set("input_classes", classes)
+	// remove the scratch folders in parallel (1500 small trees take minutes when removed one by one)
+	{
+		ch := make(chan string, len(cases))
+		for _, c := range cases {
+			ch <- c.Dir
+		}
+		close(ch)
+		var wg sync.WaitGroup
+		for i := 0; i < 16; i++ {
+			wg.Add(1)
+			go func() {
+				defer wg.Done()
+				for d := range ch {
+					env.Remove(d)
+				}
+			}()
+		}
+		wg.Wait()
+	}
 	if created < int64(len(cases))/2 {
 		r.Broken("only %d of %d stores could be created", created, len(cases))
 	}
